@@ -301,6 +301,11 @@ func (p *c15) runSQL() *core.CaseResult {
 		{1.0, "10", 2.0, "3", int64(5)},
 		{"a", "ab", "b", "", "B"},
 		{int8(-1), 0.5, uint16(3), float32(2.5), int(10)},
+		// numbers whose text order differs from their numeric order, next to strings that sort after
+		// every number's text (so that the order stays total)
+		{10.0, 9.0, "z", -1.0, -2.0},
+		{2.5, 10.0, "x", int(3), "y"},
+		{100.0, 20.0, 3.0, "~", int64(-5)},
 	}
 	for _, set := range sets {
 		n := len(set)
